@@ -45,7 +45,18 @@ def isDisconnect : Ev → Bool
   | .disconnect => true
   | _ => false
 
+/-- no `Disconnect` call. `.cancelCtx` events are deliberately NOT excluded: every theorem below that
+    assumes `NoDisconnect` holds whatever `.cancelCtx` events the script contains, except
+    `noDisconnect_not_exited`, which needs `(exec s).ctxCancelled = false` (or `NoCancel`) in addition. -/
 def NoDisconnect (s : Script) : Prop := s.evs.all (fun e => !isDisconnect e) = true
+
+def isCancelCtx : Ev → Bool
+  | .cancelCtx => true
+  | _ => false
+
+/-- the script never cancels the context given to ReconnectClient.Connect (sufficient, not necessary,
+    for `(exec s).ctxCancelled = false`: a `.cancelCtx` after Connect has returned has no effect) -/
+def NoCancel (s : Script) : Prop := s.evs.all (fun e => !isCancelCtx e) = true
 
 theorem subCallsOf_eq (l : List Req) : subCallsOf l = callsOf l := by
   unfold subCallsOf callsOf
@@ -98,13 +109,16 @@ theorem resubscribe_keeps_record (w : World) (k : Nat) (hb : NoDupTopics w.broke
 /-! ### (B) convergence -/
 
 /-- the replay invariant (*): in every reachable world in which the goroutine is not blocked for
-    ever, the reconnect loop has not exited (after Disconnect) and no `Resubscribe` is waiting in
+    ever, the reconnect loop has not exited after Disconnect and no `Resubscribe` is waiting in
     the task queue, replaying what is still pending (retry queue, then task queue) on top of the
     broker's current table gives the net effect of everything the application asked for.
-    (`phase ≠ .exited` is needed in the refined model: after Disconnect an accepted CONNACK with a
-    lost session no longer re-subscribes — see `replay_fails_after_exit`.) -/
+    (The side condition on `.exited` is needed: after Disconnect an accepted CONNACK with a lost
+    session no longer re-subscribes — see `replay_fails_after_exit`, `replay_fails_after_exit_dialGate`.
+    It is only needed for an exit after Disconnect: when the loop exited because the context given
+    to Connect was cancelled (`stopped = false`), (*) holds — see `cancelGate_replay`.) -/
 theorem replay_invariant (s : Script) (hst : (exec s).stuck = false)
-    (hex : (exec s).phase ≠ .exited) (hr : Task.resubscribe ∉ (exec s).taskQ) :
+    (hex : (exec s).phase = .exited → (exec s).stopped = false)
+    (hr : Task.resubscribe ∉ (exec s).taskQ) :
     netEffect (subCallsOf (exec s).accepted) =
       (subCallsOf (queuedReqs (exec s).taskQ)).foldl netStep
         ((pendingCalls (exec s).retryQ).foldl netStep (toMap (exec s).broker.subs)) := by
@@ -112,7 +126,7 @@ theorem replay_invariant (s : Script) (hst : (exec s).stuck = false)
   obtain ⟨pr, a, b⟩ := g.procd
   have hsup : RSup (Pm (exec s)) (Em (exec s)) := by
     rcases g.sup with h | h | h
-    · exact absurd h hex
+    · rw [hex h.1] at h; cases h.2
     · exact absurd h hr
     · exact h
   have hPE : Pm (exec s) = Em (exec s) := eq_of_rweak_rsup g.weak hsup
@@ -126,7 +140,7 @@ theorem replay_invariant (s : Script) (hst : (exec s).stuck = false)
 theorem converges' (s : Script) (hset : settled (exec s)) :
     toMap (exec s).broker.subs = netEffect (subCallsOf (exec s).accepted) := by
   obtain ⟨ht, hq, hst, k, hk, _⟩ := hset
-  have := replay_invariant s hst (by rw [hk]; simp) (by rw [ht]; simp)
+  have := replay_invariant s hst (fun h => by rw [hk] at h; cases h) (by rw [ht]; simp)
   rw [this, ht, hq]
   rfl
 
@@ -143,7 +157,7 @@ theorem settled_record_eq_broker (s : Script) (hset : settled (exec s)) :
   have g := (exec_all s).1 hst
   have hsup : RSup (Pm (exec s)) (Em (exec s)) := by
     rcases g.sup with h | h | h
-    · rw [hk] at h; cases h
+    · have h1 := h.1; rw [hk] at h1; cases h1
     · rw [ht] at h; simp at h
     · exact h
   have hPE : Pm (exec s) = Em (exec s) := eq_of_rweak_rsup g.weak hsup
@@ -316,7 +330,7 @@ theorem resubscribe_of_inv (w : World) (k : Nat) (sp : Bool) (inb : List (Nat ×
   · have hsup : RSup (Pm (step w (.connackOk sp inb))) (Em (step w (.connackOk sp inb))) := by
       rcases g'.sup with h | h | h
       · rw [hstep] at h
-        cases progress_exited _ h with
+        cases progress_exited _ h.1 with
         | inl h1 => rw [hpreph] at h1; cases h1
         | inr h1 => rw [hprestop] at h1; cases h1
       · rw [htq] at h; simp at h
@@ -400,18 +414,54 @@ theorem record_has_nothing_unsubscribed (s : Script) (hst : (exec s).stuck = fal
   rw [← b] at ht
   exact toMap_eq_none_iff.1 ht
 
-/-! ### Disconnect (refined model): `stopped`, `exited` -/
+/-! ### Disconnect and the context given to Connect (refined model): `stopped`, `ctxCancelled`, `exited` -/
 
-/-- the reconnect loop exits only after Disconnect — for every script -/
-theorem exited_implies_stopped (s : Script) : (exec s).phase = .exited → (exec s).stopped = true := by
-  have gen : ∀ (evs : List Ev) (w : World), (w.phase = .exited → w.stopped = true) →
-      ((evs.foldl step w).phase = .exited → (evs.foldl step w).stopped = true) := by
+/-- the reconnect loop exits only after Disconnect, or because the context given to
+    ReconnectClient.Connect was cancelled before Connect returned (`ctxCancelled` is set by an
+    effective `.cancelCtx` only, `step_ctx`) — for every script.
+    (`_partial`: the former statement `phase = .exited → stopped = true` is false in the refined
+    model, `exited_without_disconnect`.) -/
+theorem exited_implies_stopped_partial (s : Script) :
+    (exec s).phase = .exited → (exec s).stopped = true ∨ (exec s).ctxCancelled = true := by
+  have gen : ∀ (evs : List Ev) (w : World),
+      (w.phase = .exited → w.stopped = true ∨ w.ctxCancelled = true) →
+      ((evs.foldl step w).phase = .exited →
+        (evs.foldl step w).stopped = true ∨ (evs.foldl step w).ctxCancelled = true) := by
     intro evs
     induction evs with
     | nil => intro w h; exact h
     | cons e rest ih => intro w h; exact ih _ ((step_stopped_exited w e).2 h)
   exact gen s.evs (init s) (fun h => by cases h)
 
+/-- … hence only after Disconnect when the context was not cancelled (in time) -/
+theorem exited_implies_stopped_of_not_cancelled (s : Script) (hc : (exec s).ctxCancelled = false) :
+    (exec s).phase = .exited → (exec s).stopped = true := by
+  intro h
+  cases exited_implies_stopped_partial s h with
+  | inl h1 => exact h1
+  | inr h1 => rw [hc] at h1; cases h1
+
+theorem noCancel_not_cancelled (s : Script) (nc : NoCancel s) : (exec s).ctxCancelled = false := by
+  have gen : ∀ (evs : List Ev) (w : World), evs.all (fun e => !isCancelCtx e) = true →
+      w.ctxCancelled = false → (evs.foldl step w).ctxCancelled = false := by
+    intro evs
+    induction evs with
+    | nil => intro w _ h; exact h
+    | cons e rest ih =>
+      intro w hall h
+      simp only [List.all_cons, Bool.and_eq_true] at hall
+      apply ih _ hall.2
+      cases hx : (step w e).ctxCancelled with
+      | false => rfl
+      | true =>
+        cases step_ctx w e hx with
+        | inl h1 => rw [h] at h1; cases h1
+        | inr h1 =>
+          have h2 := hall.1
+          cases e <;> simp [isCancelCtx, evIsCancel] at h1 h2
+  exact gen s.evs (init s) nc rfl
+
+/-- `stopped` is set by Disconnect only (whatever `.cancelCtx` events the script contains) -/
 theorem noDisconnect_not_stopped (s : Script) (nd : NoDisconnect s) : (exec s).stopped = false := by
   have gen : ∀ (evs : List Ev) (w : World), evs.all (fun e => !isDisconnect e) = true →
       w.stopped = false → (evs.foldl step w).stopped = false := by
@@ -432,21 +482,31 @@ theorem noDisconnect_not_stopped (s : Script) (nd : NoDisconnect s) : (exec s).s
           cases e <;> simp [isDisconnect, evIsDisconnect] at h1 h2
   exact gen s.evs (init s) nd rfl
 
-theorem noDisconnect_not_exited (s : Script) (nd : NoDisconnect s) : (exec s).phase ≠ .exited := by
+/-- without Disconnect and without an effective cancellation of Connect's context the loop never
+    exits. (The hypothesis `hc` is new and necessary: `exited_without_disconnect`.) -/
+theorem noDisconnect_not_exited (s : Script) (nd : NoDisconnect s)
+    (hc : (exec s).ctxCancelled = false) : (exec s).phase ≠ .exited := by
   intro h
-  have := exited_implies_stopped s h
+  have := exited_implies_stopped_of_not_cancelled s hc h
   rw [noDisconnect_not_stopped s nd] at this
   cases this
 
-/-- (*) for runs without Disconnect, with no side condition on the phase -/
+/-- the same with the script-level hypothesis `NoCancel` -/
+theorem noDisconnect_noCancel_not_exited (s : Script) (nd : NoDisconnect s) (nc : NoCancel s) :
+    (exec s).phase ≠ .exited :=
+  noDisconnect_not_exited s nd (noCancel_not_cancelled s nc)
+
+/-- (*) for runs without Disconnect, with no side condition on the phase — and none on `.cancelCtx`:
+    the equation also holds after the loop has exited on a cancelled context -/
 theorem replay_invariant_nd (s : Script) (nd : NoDisconnect s) (hst : (exec s).stuck = false)
     (hr : Task.resubscribe ∉ (exec s).taskQ) :
     netEffect (subCallsOf (exec s).accepted) =
       (subCallsOf (queuedReqs (exec s).taskQ)).foldl netStep
         ((pendingCalls (exec s).retryQ).foldl netStep (toMap (exec s).broker.subs)) :=
-  replay_invariant s hst (noDisconnect_not_exited s nd) hr
+  replay_invariant s hst (fun _ => noDisconnect_not_stopped s nd) hr
 
-/-- (C3) for runs without Disconnect: no `stopped` hypothesis -/
+/-- (C3) for runs without Disconnect: no `stopped` hypothesis (`.cancelCtx` events are allowed; an
+    effective one before this CONNACK makes `hi` / `hph` unsatisfiable) -/
 theorem resubscribe_when_session_lost_nd (s : Script) (nd : NoDisconnect s) (k : Nat) (sp : Bool)
     (inb : List (Nat × Nat))
     (hi : (exec s).initialized = true) (hph : (exec s).phase = .connackGate k)
@@ -465,29 +525,119 @@ theorem resubscribe_when_session_lost_nd (s : Script) (nd : NoDisconnect s) (k :
 
 /-- after Disconnect (refined model) an accepted CONNACK pushes nothing: with the session lost the
     broker's table is empty, nothing is re-subscribed, the loop exits — the replay equation (*) and
-    (C3) do not hold there (in the previous model `Resubscribe` was still pushed) -/
+    (C3) do not hold there. Here Disconnect arrives while the loop waits for CONNACK on the second
+    connection (redial: `.peerClose`, `.waitElapsed`, `.dialOk`). -/
 def exitCex : Script :=
-  { evs := [.start, .dialOk 0, .connackOk false [], .app (.sub [⟨[97], 0⟩]), .peerClose, .dialOk 0,
-            .disconnect, .connackOk false []] }
+  { evs := [.start, .dialOk 0, .connackOk false [], .app (.sub [⟨[97], 0⟩]), .peerClose, .waitElapsed,
+            .dialOk 0, .disconnect, .connackOk false []] }
 
 theorem replay_fails_after_exit :
-    (exec exitCex).stuck = false ∧ (exec exitCex).phase = .exited ∧ (exec exitCex).taskQ = [] ∧
+    (exec exitCex).stuck = false ∧ (exec exitCex).phase = .exited ∧ (exec exitCex).stopped = true ∧
+    (exec exitCex).taskQ = [] ∧
     (exec exitCex).retryQ = [] ∧ (exec exitCex).broker.subs = [] ∧
     (exec exitCex).subEst = [⟨[97], 0⟩] ∧
     netEffect (subCallsOf (exec exitCex).accepted) [97] = some 0 := by decide
 
-def exitCexPre : Script := { exitCex with evs := exitCex.evs.take 7 }
+def exitCexPre : Script := { exitCex with evs := exitCex.evs.take 8 }
 
 theorem no_resubscribe_after_disconnect :
     (exec exitCexPre).initialized = true ∧ (exec exitCexPre).phase = .connackGate 1 ∧
     (exec exitCexPre).stopped = true ∧
     (connackPre (exec exitCexPre) 1 false []).taskQ = [.disconnect] := by decide
 
+/-- the same when Disconnect arrives while the loop is inside DialContext (`.dialGate`): the dial is
+    not interrupted, `.dialOk` still creates the second connection and CONNECT goes out on it; the
+    accepted CONNACK (session lost) then pushes nothing and the loop exits -/
+def exitCexGate : Script :=
+  { evs := [.start, .dialOk 0, .connackOk false [], .app (.sub [⟨[97], 0⟩]), .peerClose, .waitElapsed,
+            .disconnect, .dialOk 0, .connackOk false []] }
+
+def exitCexGatePre : Script := { exitCexGate with evs := exitCexGate.evs.take 7 }
+
+theorem disconnect_in_dialGate_stays :
+    (exec exitCexGatePre).phase = .dialGate ∧ (exec exitCexGatePre).stopped = true ∧
+    (exec exitCexGatePre).conns.length = 1 ∧ (exec exitCexGatePre).broker.subs = [⟨[97], 0⟩] := by decide
+
+theorem replay_fails_after_exit_dialGate :
+    (exec exitCexGate).stuck = false ∧ (exec exitCexGate).phase = .exited ∧
+    (exec exitCexGate).stopped = true ∧ (exec exitCexGate).conns.length = 2 ∧
+    (getConn (exec exitCexGate) 1).pkts.head? = some (.connect, .sent .ok) ∧
+    (exec exitCexGate).taskQ = [] ∧ (exec exitCexGate).retryQ = [] ∧
+    (exec exitCexGate).broker.subs = [] ∧ (exec exitCexGate).subEst = [⟨[97], 0⟩] ∧
+    netEffect (subCallsOf (exec exitCexGate).accepted) [97] = some 0 := by decide
+
+/-- Disconnect while the loop waits in `.backoff`: the select on the back-off timer returns, the loop
+    exits at once; no further dial (a late `.waitElapsed` / `.dialOk` is ignored), the broker's table
+    is what it was -/
+def exitBackoff : Script :=
+  { evs := [.start, .dialOk 0, .connackOk false [], .app (.sub [⟨[97], 0⟩]), .peerClose, .disconnect,
+            .waitElapsed, .dialOk 0] }
+
+def exitBackoffPre : Script := { exitBackoff with evs := exitBackoff.evs.take 5 }
+
+theorem disconnect_in_backoff_exits :
+    (exec exitBackoffPre).phase = .backoff ∧ (exec exitBackoffPre).dials = 1 ∧
+    (exec exitBackoff).phase = .exited ∧ (exec exitBackoff).stopped = true ∧
+    (exec exitBackoff).ctxCancelled = false ∧
+    (exec exitBackoff).dials = 1 ∧ (exec exitBackoff).conns.length = 1 ∧
+    (exec exitBackoff).broker.subs = [⟨[97], 0⟩] ∧ (exec exitBackoff).subEst = [⟨[97], 0⟩] := by decide
+
+/-- the loop exits WITHOUT Disconnect when the context given to Connect is cancelled before Connect
+    has returned: the former `exited_implies_stopped` / `noDisconnect_not_exited` are false -/
+def cancelEarly : Script := { evs := [.start, .cancelCtx] }
+
+theorem exited_without_disconnect :
+    NoDisconnect cancelEarly ∧ (exec cancelEarly).phase = .exited ∧
+    (exec cancelEarly).stopped = false ∧ (exec cancelEarly).ctxCancelled = true ∧
+    (exec cancelEarly).connectErr = true :=
+  ⟨by unfold NoDisconnect; decide, by decide⟩
+
+/-- the context is cancelled while the loop waits for the first CONNACK, a Subscribe waiting in the
+    task queue, a second one issued afterwards: the connection is closed, the loop exits with
+    `stopped = false`, both calls end up in the retry queue (nothing reached the broker); the second
+    `.cancelCtx` has no effect -/
+def cancelGate : Script :=
+  { evs := [.start, .dialOk 0, .app (.sub [⟨[97], 1⟩]), .cancelCtx, .app (.sub [⟨[98], 0⟩]), .cancelCtx] }
+
+theorem cancelGate_facts :
+    (exec cancelGate).phase = .exited ∧ (exec cancelGate).stopped = false ∧
+    (exec cancelGate).ctxCancelled = true ∧ (exec cancelGate).connectErr = true ∧
+    (exec cancelGate).connectReturned = none ∧ (getConn (exec cancelGate) 0).alive = false ∧
+    (exec cancelGate).stuck = false ∧ (exec cancelGate).taskQ = [] ∧
+    (exec cancelGate).retryQ = [.reSub [⟨[97], 1⟩], .qSub [⟨[98], 0⟩]] ∧
+    (exec cancelGate).broker.subs = [] ∧ (exec cancelGate).rejected = 0 := by decide
+
+example : NoDisconnect cancelGate := by unfold NoDisconnect; decide
+
+/-- (*) holds there — `replay_invariant` applies although the loop has exited -/
+theorem cancelGate_replay :
+    netEffect (subCallsOf (exec cancelGate).accepted) =
+      (subCallsOf (queuedReqs (exec cancelGate).taskQ)).foldl netStep
+        ((pendingCalls (exec cancelGate).retryQ).foldl netStep (toMap (exec cancelGate).broker.subs)) :=
+  replay_invariant cancelGate (by decide) (fun _ => by decide) (by decide)
+
+example : netEffect (subCallsOf (exec cancelGate).accepted) [97] = some 1 ∧
+    netEffect (subCallsOf (exec cancelGate).accepted) [98] = some 0 := by decide
+
+/-- cancellation while backing off after a failed dial, and before Connect is called: the loop exits,
+    one DialContext call, no connection; later `.waitElapsed` / `.dialOk` are ignored -/
+def cancelBackoff : Script := { evs := [.start, .dialFail, .cancelCtx, .waitElapsed, .dialOk 0] }
+
+def cancelIdle : Script := { evs := [.cancelCtx, .start, .dialOk 0] }
+
+example : (exec cancelBackoff).phase = .exited ∧ (exec cancelBackoff).dials = 1 ∧
+    (exec cancelBackoff).conns.length = 0 ∧ (exec cancelBackoff).connectErr = true ∧
+    (exec cancelBackoff).waits = [0] := by decide
+
+example : (exec cancelIdle).phase = .exited ∧ (exec cancelIdle).dials = 1 ∧
+    (exec cancelIdle).conns.length = 0 ∧ (exec cancelIdle).connectErr = true := by decide
+
 /-! ### non-vacuity: concrete runs (filters as byte lists: a = [97], b = [98], c = [99]) -/
 
 /-- four connections; a lost acknowledgement, a silent broker (ResponseTimeout set), a write error;
     the session lost twice after the first connection and kept once; repeated filters, changed QoS,
-    a duplicate inside one call, unsubscribing twice, a request issued while waiting for CONNACK -/
+    a duplicate inside one call, unsubscribing twice, a request issued while waiting for CONNACK;
+    every redial is preceded by the back-off timer firing (`.waitElapsed`), one dial fails -/
 def ex1 : Script :=
   { cfg := { respTimeout := true, always := false },
     faults := [.ok, .lostAck, .silent, .ok, .writeFail],
@@ -496,20 +646,24 @@ def ex1 : Script :=
             .app (.sub [⟨[98], 0⟩, ⟨[97], 2⟩]),
             .app (.unsub [[98]]),
             .app (.pub 0 1),
-            .dialOk 10,
+            .waitElapsed, .dialOk 10,
             .app (.sub [⟨[99], 1⟩, ⟨[99], 0⟩]),
             .connackOk false [],
-            .dialFail, .dialOk 20, .app (.unsub [[97], [97]]), .connackOk true [],
-            .peerClose, .dialOk 30, .connackOk false []] }
+            .waitElapsed, .dialFail, .waitElapsed, .dialOk 20, .app (.unsub [[97], [97]]),
+            .connackOk true [],
+            .peerClose, .waitElapsed, .dialOk 30, .connackOk false []] }
 
-/-- the run ends settled on the fourth connection, with every fault consumed … -/
+/-- the run ends settled on the fourth connection, with every fault consumed, after five
+    DialContext calls and four back-off waits … -/
 example : (exec ex1).taskQ = [] ∧ (exec ex1).retryQ = [] ∧ (exec ex1).stuck = false ∧
     (exec ex1).phase = .up 3 ∧ (getConn (exec ex1) 3).alive = true ∧ (exec ex1).faults = [] ∧
-    (exec ex1).conns.length = 4 := by decide
+    (exec ex1).conns.length = 4 ∧ (exec ex1).dials = 5 ∧ (exec ex1).waits = [0, 0, 1, 0] := by decide
 
 example : settled (exec ex1) := ⟨by decide, by decide, by decide, 3, by decide, by decide⟩
 
 example : NoDisconnect ex1 := by unfold NoDisconnect; decide
+
+example : NoCancel ex1 := by unfold NoCancel; decide
 
 /-- … and the broker holds exactly c/0: a and b were unsubscribed, c's QoS was overwritten -/
 example : (exec ex1).broker.subs = [⟨[99], 0⟩] ∧ (exec ex1).subEst = [⟨[99], 0⟩] := by decide
@@ -519,11 +673,24 @@ example : netEffect (subCallsOf (exec ex1).accepted) [99] = some 0 ∧
     netEffect (subCallsOf (exec ex1).accepted) [98] = none := by decide
 
 /-- a state in the middle of `ex1` (after the second CONNACK): not settled, three entries pending
-    behind a timed-out SUBSCRIBE, the broker table different from the record -/
-def ex1mid : Script := { ex1 with evs := ex1.evs.take 10 }
+    behind a timed-out SUBSCRIBE, the broker table different from the record, the loop backing off -/
+def ex1mid : Script := { ex1 with evs := ex1.evs.take 11 }
 
 example : (exec ex1mid).retryQ ≠ [] ∧ (exec ex1mid).stuck = false ∧
-    (exec ex1mid).broker.subs ≠ (exec ex1mid).subEst ∧ (exec ex1mid).conns.length = 2 := by decide
+    (exec ex1mid).broker.subs ≠ (exec ex1mid).subEst ∧ (exec ex1mid).conns.length = 2 ∧
+    (exec ex1mid).phase = .backoff := by decide
+
+/-- `ex1` with the context given to Connect cancelled after Connect has returned (and once more at
+    the end): no effect, the run converges as before (`NoCancel` is sufficient, not necessary) -/
+def ex1c : Script :=
+  { ex1 with evs := ex1.evs.take 3 ++ [.cancelCtx] ++ ex1.evs.drop 3 ++ [.cancelCtx] }
+
+example : settled (exec ex1c) := ⟨by decide, by decide, by decide, 3, by decide, by decide⟩
+
+example : (exec ex1c).ctxCancelled = false ∧ (exec ex1c).connectErr = false ∧
+    (exec ex1c).broker.subs = [⟨[99], 0⟩] ∧ (exec ex1c).conns.length = 4 := by decide
+
+example : ¬ NoCancel ex1c := by unfold NoCancel; decide
 
 /-- AlwaysResubscribe with the session kept: the record is re-subscribed on the second connection
     (behind the retried SUBSCRIBE whose request was lost) -/
@@ -531,12 +698,20 @@ def ex2 : Script :=
   { cfg := { respTimeout := true, always := true },
     faults := [.ok, .lostReq],
     evs := [.start, .dialOk 0, .connackOk false [], .app (.sub [⟨[97], 1⟩]), .app (.sub [⟨[98], 2⟩]),
-            .dialOk 5, .connackOk true []] }
+            .waitElapsed, .dialOk 5, .connackOk true []] }
 
 example : (getConn (exec ex2) 1).pkts =
     [(.connect, .sent .ok), (.subscribe 6 [⟨[98], 2⟩], .sent .ok), (.subscribe 7 [⟨[97], 1⟩], .sent .ok),
      (.subscribe 8 [⟨[98], 2⟩], .sent .ok)] ∧
     (exec ex2).broker.subs = [⟨[97], 1⟩, ⟨[98], 2⟩] ∧ (exec ex2).retryQ = [] := by decide
+
+/-- without `.waitElapsed` the loop is still backing off: the `.dialOk` is ignored, there is no second
+    connection, the lost SUBSCRIBE stays in the retry queue -/
+def ex2NoWait : Script := { ex2 with evs := ex2.evs.filter (fun e => !(e matches .waitElapsed)) }
+
+example : (exec ex2NoWait).phase = .backoff ∧ (exec ex2NoWait).conns.length = 1 ∧
+    (exec ex2NoWait).retryQ = [.reSub [⟨[98], 2⟩]] ∧ (exec ex2NoWait).broker.subs = [⟨[97], 1⟩] := by
+  decide
 
 /-- (A) needs `stuck = false`: a silent broker without ResponseTimeout blocks the goroutine for ever
     inside `Resubscribe`, after the record was emptied and only partly rebuilt -/
@@ -544,7 +719,7 @@ def stuckCex : Script :=
   { cfg := { respTimeout := false },
     faults := [.ok, .ok, .silent],
     evs := [.start, .dialOk 0, .connackOk false [], .app (.sub [⟨[97], 0⟩]), .app (.sub [⟨[98], 1⟩]),
-            .peerClose, .dialOk 0, .connackOk false []] }
+            .peerClose, .waitElapsed, .dialOk 0, .connackOk false []] }
 
 theorem stuck_counterexample :
     (exec stuckCex).stuck = true ∧ queuedReqs (exec stuckCex).taskQ = [] ∧
